@@ -30,9 +30,9 @@ func c14DaemonRestartJob(base int32) Job {
 			pod cniPod
 		}
 		roles := []role{
-			{"hostip", cniPod{HostPort: base + 31, HostIP: "10.1.1.1"}},
-			{"plain", cniPod{HostPort: base + 32}},
-			{"two-ports", cniPod{HostPort: base + 33, HostPort2: base + 34, HostIP2: "10.1.1.2"}},
+			{"hostip", cniPod{HostPort: base + 5, HostIP: "10.1.1.1"}},
+			{"plain", cniPod{HostPort: base + 6}},
+			{"two-ports", cniPod{HostPort: base + 7, HostPort2: base + 8, HostIP2: "10.1.1.2"}},
 		}
 		names := []string{"hp-a", "hp-b", "hp-c"}
 		lines := func() []string {
@@ -49,7 +49,7 @@ func c14DaemonRestartJob(base int32) Job {
 			return out
 		}
 		h.reset()
-		h.putPod(cniPod{Name: "hp-warm", Networks: "a", HostPort: base + 39})
+		h.putPod(cniPod{Name: "hp-warm", Networks: "a", HostPort: base + 10})
 		h.request("ADD", "warm", "hp-warm", "eth0")
 		h.request("DEL", "warm", "hp-warm", "eth0")
 		h.deletePodObject("hp-warm")
@@ -97,7 +97,7 @@ func c14DaemonRestartJob(base int32) Job {
 						sort.Strings(wantPorts)
 						if table == "stale-pod" {
 							// a pod that was set up and went away while galaxy was down
-							h.putPod(cniPod{Name: "hp-gone", Networks: "a", HostPort: base + 35, HostIP: "10.1.1.3", PortMapOn: annotated})
+							h.putPod(cniPod{Name: "hp-gone", Networks: "a", HostPort: base + 9, HostIP: "10.1.1.3", PortMapOn: annotated})
 							h.request("ADD", "c-gone", "hp-gone", "eth0")
 							h.deletePodObject("hp-gone")
 						}
